@@ -15,6 +15,7 @@ import (
 	"hash/fnv"
 	"os"
 	"path/filepath"
+	"regexp"
 	"runtime"
 	"runtime/debug"
 	"sort"
@@ -611,9 +612,16 @@ func LoadTolerant[C any](maxLate time.Duration, prop func(C, *Obs) error) func(C
 				}
 				return nil
 			}
-			if late <= maxLate {
+			// A failure whose text shows a client-side timeout (errno 110, gRPC 504, "timeout") must repeat on every
+			// attempt: code that really loses a well-behaved answer loses it every time, a starved client does not.
+			// Any other failure is final as soon as one attempt ran undisturbed.
+			if late <= maxLate && !timeoutSymptom.MatchString(err.Error()) {
 				*o = *o2
 				return err
+			}
+			if attempt == 2 && timeoutSymptom.MatchString(err.Error()) && late <= maxLate {
+				*o = *o2
+				return err // three timeouts in a row, the last one on an undisturbed machine
 			}
 			time.Sleep(time.Duration(50*(attempt+1)) * time.Millisecond)
 		}
@@ -622,3 +630,5 @@ func LoadTolerant[C any](maxLate time.Duration, prop func(C, *Obs) error) func(C
 		return nil
 	}
 }
+
+var timeoutSymptom = regexp.MustCompile(`net=110\b|\b504\b|(?i)time[d ]?out|deadline exceeded`)
